@@ -430,12 +430,17 @@ class StmtMixin:
                     for s2, vals in self.ev_list(parts, s, sink):
                         cont = vals[0]
                         rest = vals[1:]
-                        a = rest.pop(0).e if sl.lower is not None else None
-                        b = rest.pop(0).e if sl.upper is not None else None
+                        a = rest.pop(0) if sl.lower is not None else None
+                        b = rest.pop(0) if sl.upper is not None else None
                         if cont.e is None:
                             nxt.append(s2)
                             continue
                         n = z3.Length(cont.e)
+                        # a bound that may be None means "no bound"
+                        if a is not None:
+                            a = z3.If(ty.opt_is_none(a), z3.IntVal(0), ty.opt_val(a).e) if isinstance(a.t, ty.Opt) else a.e
+                        if b is not None:
+                            b = z3.If(ty.opt_is_none(b), n, ty.opt_val(b).e) if isinstance(b.t, ty.Opt) else b.e
                         lo = ops.clamp_lo(cont.e, a)
                         hi = n if b is None else ops.clamp_lo(cont.e, b)
                         hi2 = z3.If(hi < lo, lo, hi)
